@@ -190,6 +190,34 @@ def main(argv=None):
                 if f["success"] and res["status"] in ("verified", "failed"):
                     discharged += 1
 
+    # syntactic frame condition (C18): the identifiers may occur, as code, only inside the item under contract (and where they are declared)
+    if cfg.get("frame_scan"):
+        fs = cfg["frame_scan"]
+        from .extract import SourceFile, LostAnchor as _LA
+        import glob as _glob
+        hits = []
+        try:
+            for path in sorted(_glob.glob(os.path.join(REPO, "src", "**", "*.rs"), recursive=True)):
+                rel = os.path.relpath(path, REPO)
+                if any(rel.startswith(x) for x in fs["declared_in"]):
+                    continue
+                sf = SourceFile(rel, open(path, encoding="utf-8").read())
+                lo = hi = -1
+                if rel == fs["item_file"]:
+                    it = sf.find(fs["item"])
+                    lo, hi = it.start, it.end
+                for k, t in enumerate(sf.toks):
+                    if t.kind == "ident" and t.text in fs["idents"] and not (lo <= k <= hi):
+                        hits.append(f"{rel}:{sf.line_of(t.start)} `{t.text}`")
+        except _LA as e:
+            hits.append(f"lost anchor: {e}")
+        obligations += 1
+        clause_ids.append(fs["cid"])
+        if hits:
+            undecided.append(dict(unit="frame-scan", reason="needs-contract", message=f"[{fs['cid']}] {fs['what']}: also found at {', '.join(hits[:6])} -- that site has no contract, so the frame condition is undecided"))
+        else:
+            discharged += 1
+
     # Kani side (function contract on the real function, loop-free full-domain harnesses on a scratch copy)
     kani_res = None
     if cfg.get("kani") == "leaves":
